@@ -495,6 +495,60 @@ func genFunc(r *hx.Rng) *gScen {
 }
 
 // diamond: top depends on l and r, both depend on bottom; optionally bottom depends back on top (cycle with tails)
+// a component X that a post-processor replaces — early AND after initialization, by the same object — with a substitute
+// of ANOTHER Go type (FW: implements Ifc0 and Ifc1 only). Holders reach X by name and by type through pointer, interface,
+// slice and `any` fields, required and optional, with and without a cycle back from X.
+func genForeign(r *hx.Rng) *gScen {
+	g := newBuilder(r)
+	xt := []int{0, 1, 4, 16, 3}[r.Intn(5)] // T0, T1, T4 (the pointer-slot types), T16, T3: all implement Ifc0
+	x := g.addNode(xt, r.P(1, 3))
+	g.sc.nodes[x].early, g.sc.nodes[x].after = foreignVer, foreignVer
+	nh := 1 + r.Intn(3)
+	ptrSlot := map[int]string{0: "P0", 1: "P1", 4: "P4"}
+	for j := 0; j < nh; j++ {
+		h := g.addNode(g.randType(func(u utInfo) bool { return !u.pp }), r.P(1, 3))
+		opt := ""
+		if r.P(1, 2) {
+			opt = ",required=false"
+		}
+		switch r.Intn(6) {
+		case 0: // *T by name
+			if s, ok := ptrSlot[xt]; ok {
+				g.sc.nodes[h].slots[s] = "w" + g.nameOf(x) + opt
+			} else {
+				g.sc.nodes[h].slots["X0"] = "w" + g.nameOf(x) + opt
+			}
+		case 1: // *T by type
+			if s, ok := ptrSlot[xt]; ok {
+				g.sc.nodes[h].slots[s] = "w" + opt
+			} else {
+				g.sc.nodes[h].slots["S0"] = "w" + opt
+			}
+		case 2: // interface by name (FW implements it)
+			g.sc.nodes[h].slots["X0"] = "w" + g.nameOf(x) + opt
+		case 3: // slice of pointers / of interfaces by type
+			if xt == 0 {
+				g.sc.nodes[h].slots["SP0"] = "w" + opt
+			} else if xt == 4 {
+				g.sc.nodes[h].slots["SP4"] = "w" + opt
+			}
+			g.sc.nodes[h].slots["S0"] = "w" + opt
+		case 4: // any by name
+			g.sc.nodes[h].slots["A0"] = "w" + g.nameOf(x) + opt
+		default:
+			g.randomSlots(h, 1+r.Intn(3))
+			g.sc.nodes[h].slots["X0b"] = "w" + g.nameOf(x) + opt
+		}
+		if r.P(1, 2) { // close a cycle X -> h
+			g.edgeByName(x, h, r.P(1, 4))
+		}
+	}
+	if r.P(1, 10) {
+		g.fault()
+	}
+	return g.sc
+}
+
 func genDiamond(r *hx.Rng) *gScen {
 	g := newBuilder(r)
 	top := g.addNode(g.randType(func(u utInfo) bool { return !u.lazy }), false)
@@ -638,8 +692,12 @@ func graphGen(rng *hx.Rng, n int, tier string, w *hx.Writer) {
 			count++
 		case k < 14:
 			sc := genMatch(r)
+			tag := "match"
+			if r.P(1, 3) {
+				sc, tag = genForeign(r), "foreign"
+			}
 			if active() {
-				emitGraph(sc, []string{"match"}, w)
+				emitGraph(sc, []string{tag}, w)
 			}
 			count++
 		case k < 15:
